@@ -75,12 +75,12 @@ func init() {
 			return
 		}
 		fk := funcKey(f)
-		c.Check(c.ge().ensures(f, guardCmp("evidence time equals the header time of its height", `evidence\.Time\(\)`, "==", `.*LoadBlockMeta\(evidence\.Height\(\)\)\.Header\.Time`), 0), fk+" ensures the evidence time is the block time", w.pos(f.Pos()), "nil only behind the time equality", "verify can accept evidence whose time differs from its block's time")
-		c.Check(c.ge().ensures(f, guardRe("block of the evidence height is known", `^nonnil\(.*LoadBlockMeta\(evidence\.Height\(\)\)\)$`), 0), fk+" ensures the block at the evidence height exists", w.pos(f.Pos()), "nil only with the block meta", "verify can accept evidence for an unknown height")
+		c.Check(c.ge().ensures(f, guardCmp("evidence time equals the header time of its height", `evidence\.Time\(\)`, "==", `.*LoadBlockMeta\(evidence\.Height\(\)\)\.Header\.Time`), 2), fk+" ensures the evidence time is the block time", w.pos(f.Pos()), "nil only behind the time equality", "verify can accept evidence whose time differs from its block's time")
+		c.Check(c.ge().ensures(f, guardRe("block of the evidence height is known", `^nonnil\(.*LoadBlockMeta\(evidence\.Height\(\)\)\)$`), 2), fk+" ensures the block at the evidence height exists", w.pos(f.Pos()), "nil only with the block meta", "verify can accept evidence for an unknown height")
 		notExpired := guardAny("not older than both age limits",
 			guardCmp("d", `.*LastBlockTime\.Sub\(.*Header\.Time\)`, "<=", `.*MaxAgeDuration`),
 			guardCmp("b", `\(.*LastBlockHeight - evidence\.Height\(\)\)`, "<=", `.*MaxAgeNumBlocks`))
-		c.Check(c.ge().ensures(f, notExpired, 0), fk+" ensures freshness by at least one age limit", w.pos(f.Pos()), "accepted only if duration or block age is within its limit", "verify can accept evidence that exceeded both age limits")
+		c.Check(c.ge().ensures(f, notExpired, 2), fk+" ensures freshness by at least one age limit", w.pos(f.Pos()), "accepted only if duration or block age is within its limit", "verify can accept evidence that exceeded both age limits")
 		// the expiry rejection requires both limits exceeded
 		for _, ea := range condEdges(f) {
 			if guardCmp("x", `.*LastBlockTime\.Sub\(.*Header\.Time\)`, ">", `.*MaxAgeDuration`).Match(w, f, ea.A) {
@@ -114,7 +114,7 @@ func init() {
 		}
 		// the pool's pruning predicate
 		if g := c.fn("evidence", "Pool.isExpired"); g != nil {
-			okAnd := c.ge().ensures(g, guardCmp("block age exceeded", `.*`, ">", `.*MaxAgeNumBlocks`), 0)
+			okAnd := c.ge().ensures(g, guardCmp("block age exceeded", `.*`, ">", `.*MaxAgeNumBlocks`), 2)
 			vals := returnValues(g, 0)
 			okDur := false
 			for _, v := range vals {
@@ -147,7 +147,7 @@ func init() {
 			guardRe("vote A signature verifies", `^true\(`+val+`\.PubKey\.VerifySignature\(types\.VoteSignBytes\(chainID, e\.VoteA\.ToProto\(\)\), e\.VoteA\.Signature\)\)$`),
 			guardRe("vote B signature verifies", `^true\(`+val+`\.PubKey\.VerifySignature\(types\.VoteSignBytes\(chainID, e\.VoteB\.ToProto\(\)\), e\.VoteB\.Signature\)\)$`),
 		} {
-			c.Check(c.ge().ensures(f, g, 0), "evidence.VerifyDuplicateVote ensures "+g.Name, w.pos(f.Pos()), "nil only behind this check", "VerifyDuplicateVote can accept without: "+g.Name)
+			c.Check(c.ge().ensures(f, g, 2), "evidence.VerifyDuplicateVote ensures "+g.Name, w.pos(f.Pos()), "nil only behind this check", "VerifyDuplicateVote can accept without: "+g.Name)
 		}
 		// verify() hands it the validators of the evidence height and the chain id
 		if v := c.fn("evidence", "Pool.verify"); v != nil {
@@ -187,7 +187,7 @@ func init() {
 				guardCmp("total power", `ev\.TotalVotingPower`, "==", `commonVals\.TotalVotingPower\(\)`),
 				guardCmp("same number of byzantine validators", `len\(ev\.GetByzantineValidators\(commonVals, trustedHeader\)\)`, "==", `len\(ev\.ByzantineValidators\)`),
 			} {
-				c.Check(c.ge().ensures(g, gd, 0), "evidence.validateABCIEvidence ensures "+gd.Name, w.pos(g.Pos()), "nil only behind this check", "validateABCIEvidence can accept without: "+gd.Name)
+				c.Check(c.ge().ensures(g, gd, 2), "evidence.validateABCIEvidence ensures "+gd.Name, w.pos(g.Pos()), "nil only behind this check", "validateABCIEvidence can accept without: "+gd.Name)
 			}
 		}
 	})
